@@ -1075,6 +1075,11 @@ class System(BaseModel, Serializable):
                         shape = (N,) + (1,) * len(var_shape.get(var, ()))
                         coupling_prev[var] = np.broadcast_to((lb + ub) / 2, shape).copy()
                         norm_status[var] = True
+                        # Members that compute this variable through their model return it in model units: keep the initial
+                        # guess in that same form so the first residual (and every member of the first sweep) sees one form
+                        if any(use_model.get(c) is not None for c in scc if var in self[c].outputs):
+                            coupling_prev[var] = var.denormalize(coupling_prev[var])
+                            norm_status[var] = False
 
                 residual_hist = deque(maxlen=anderson_mem)
                 coupling_hist = deque(maxlen=anderson_mem)
